@@ -20,6 +20,12 @@ verus! {
 
 //@item src/resources/asn.rs :: pub struct Asn pubfields keepderive=Clone,Copy,Eq,Ord,PartialEq,PartialOrd
 //@item src/resources/asn.rs :: pub struct SmallAsnSet pubfields
+impl Asn {
+    // the two associated constants of src/resources/asn.rs (`Asn(u32::MIN)`, `Asn(u32::MAX)`), present so that an
+    // edit using them is checked instead of failing to compile (unused by the current merge iterators)
+    pub const MIN: Asn = Asn(u32::MIN);
+    pub const MAX: Asn = Asn(u32::MAX);
+}
 
 // ---- environment: std::iter (opaque stand-ins, contracts assumed; listed in asn_merge.trusted) -------
 pub mod iter {
